@@ -64,8 +64,8 @@ func guarded(fn func() error) (res string, kinds []string, msg string) {
 			k += "+" + qk
 		}
 		return "error", strings.Split(k, "+"), o.err.Error()
-	case <-time.After(5 * time.Second):
-		return "hang", []string{}, "no return within 5s"
+	case <-time.After(15 * time.Second):
+		return "hang", []string{}, "no return within 15s"
 	}
 }
 
@@ -260,7 +260,7 @@ func runApiTxPath(name string, steps []apiStep) *core.Trace {
 	go func() { a.e.Close(); close(done) }()
 	select {
 	case <-done:
-	case <-time.After(5 * time.Second):
+	case <-time.After(15 * time.Second):
 		tr.Events = append(tr.Events, core.Event{"ev": "Call", "m": "FileClose", "res": "hang", "kinds": []string{}, "unchanged": false})
 	}
 	return tr
